@@ -154,6 +154,86 @@ class Ctx:
             return False
         return not self.mut.get(d)
 
+    def unstable_init(self, d):
+        """the initialiser of local d mentions a local / parameter that is re-assigned somewhere in the function:
+        replacing d by its initialiser would not be valid at every use (flow-insensitive inlining is refused)."""
+        cache = self.__dict__.setdefault("_unstable", {})
+        if d in cache:
+            return cache[d]
+        cache[d] = False          # recursion guard
+        v = self.decls.get(d)
+        res = False
+        if v is not None and v.get("init") is not None:
+            mutated = {x for x, ns in self.mut.items() if ns}
+
+            def walk(i):
+                n = self.fn.nodes[i]
+                if n["k"] == "ref" and n["dk"] in ("local", "param", "staticlocal"):
+                    if n["d"] in mutated:
+                        return True
+                    if n["dk"] == "local" and n["d"] != d and self.unstable_init(n["d"]):
+                        return True
+                return any(walk(c) for c in self.fn.children(i))
+            res = walk(v["init"])
+        cache[d] = res
+        return res
+
+    def init_mutated_vars(self, d, _seen=None):
+        """re-assigned locals / parameters the initialiser of local d depends on (through other inlined locals)."""
+        cache = self.__dict__.setdefault("_imv", {})
+        if d in cache:
+            return cache[d]
+        cache[d] = set()
+        v = self.decls.get(d)
+        res = set()
+        if v is not None and v.get("init") is not None:
+            mutated = {x for x, ns in self.mut.items() if ns}
+            stack = [v["init"]]
+            while stack:
+                i = stack.pop()
+                n = self.fn.nodes[i]
+                if n["k"] == "ref" and n["dk"] in ("local", "param", "staticlocal"):
+                    if n["d"] in mutated:
+                        res.add(n["d"])
+                    elif n["dk"] == "local" and n["d"] != d:
+                        res |= self.init_mutated_vars(n["d"])
+                stack.extend(self.fn.children(i))
+        cache[d] = res
+        return res
+
+    def inline_ok(self, use_node, d):
+        """May the use of single-assignment local d at `use_node` be replaced by its initialiser?  Yes unless a variable
+        the initialiser depends on can be modified on a path from the declaration to this use."""
+        deps = self.init_mutated_vars(d)
+        if not deps:
+            return True
+        cache = self.__dict__.setdefault("_iok", {})
+        ck = (use_node, d)
+        if ck in cache:
+            return cache[ck]
+        fn = self.fn
+        res = False
+        try:
+            cfg = fn.cfg
+            pd = cfg.pos1(self.decls[d].get("declnode"))
+            pu = cfg.pos1(use_node)
+            if pd is not None and pu is not None:
+                res = True
+                for x in deps:
+                    for m in self.mut.get(x, []):
+                        pm = cfg.pos1(m)
+                        if pm is None:
+                            continue
+                        if _reach(cfg, pd, pm, pd) and _reach(cfg, pm, pu, pd):
+                            res = False
+                            break
+                    if not res:
+                        break
+        except AnalysisBroken:
+            res = False
+        cache[ck] = res
+        return res
+
     def unmodified_param(self, d):
         v = self.decls.get(d)
         return v is not None and v.get("param") and not self.mut.get(d)
@@ -176,7 +256,7 @@ class Ctx:
         if k == "ref":
             dk = n["dk"]
             if dk in ("local", "staticlocal"):
-                if inline and self.single_assignment(n["d"]):
+                if inline and self.single_assignment(n["d"]) and self.inline_ok(i, n["d"]):
                     v = self.decls[n["d"]]
                     # a reference / value copy of an expression: same value as the initialiser
                     r = K(v["init"])
@@ -284,6 +364,32 @@ class Ctx:
                 L, R = R, L
             return [(op, L, R)]
         return [("true" if truth else "false", self.key(cond, inline))]
+
+
+def _reach(cfg, a, b, avoid):
+    """is position b reachable from just after position a without executing position `avoid` again?"""
+    if a[0] == b[0] and a[1] < b[1]:
+        if not (avoid[0] == a[0] and a[1] < avoid[1] < b[1]):
+            return True
+    seen = set()
+    stack = [s for s in cfg.blocks[a[0]].succs if s is not None]
+    # leaving a's block: if avoid lies later in the same block it is executed first
+    if avoid[0] == a[0] and avoid[1] > a[1]:
+        return False
+    while stack:
+        blk = stack.pop()
+        if blk in seen:
+            continue
+        seen.add(blk)
+        if blk == b[0]:
+            if not (avoid[0] == blk and avoid[1] < b[1]):
+                return True
+            # avoid precedes b in this block: this entry is blocked, but do not expand further through it
+            continue
+        if blk == avoid[0]:
+            continue
+        stack.extend(s for s in cfg.blocks[blk].succs if s is not None)
+    return False
 
 
 def key_vars(key, acc=None):
